@@ -66,6 +66,14 @@ def make_case(rnd, kind):
             many = b''.join(_bz2.compress(b'trailing %d ' % k * rnd.randint(1, 30), rnd.randint(1, 9)) for k in range(rnd.choice([20, 31, 47, 62, 130])))
         g = junk + MAGIC + rnd.randbytes(rnd.choice([4, 30])) + rnd.choice([b'', second, second[4:], MAGIC * 3]) + many
         return base + g
+    if kind == 'trailing-many-after-big-block':
+        # a slow last block, then garbage, then dozens of complete streams the scanner will find: the parser reaches
+        # the end of the input while the last real block is still being decoded and every output slot is taken
+        import bz2 as _bz2
+        big = _bz2.compress(rnd.randbytes(rnd.choice([400000, 900000])), 9)
+        n = rnd.choice([14, 30, 31, 46, 47, 62, 63, 64, 126, 130])
+        many = b''.join(_bz2.compress(b'trailing %d ' % k * rnd.randint(1, 20), rnd.randint(1, 9)) for k in range(n))
+        return big + rnd.choice([b'x', b'garbage', b'\0' * 3]) + many
     if kind == 'near-true-header':
         # a pattern 1..3 bits before / after the true next header cannot be planted in coded data reliably;
         # use block-level raw tails: extra pattern bits right after a block's EOB are not valid (bad magic) -> invalid stream
@@ -83,7 +91,7 @@ def make_case(rnd, kind):
     raise ValueError(kind)
 
 
-KINDS = ['pattern-alone', 'pattern+crc+garbage', 'inner-block', 'flood', 'adjacent', 'trailing-garbage', 'near-true-header',
+KINDS = ['trailing-many-after-big-block', 'pattern-alone', 'pattern+crc+garbage', 'inner-block', 'flood', 'adjacent', 'trailing-garbage', 'near-true-header',
          'invalid-outer', 'follower']
 
 
@@ -186,6 +194,9 @@ def run(ctx):
                     # many candidates whose retrieve jobs are dropped mid-header: stresses the candidate table (finding F3)
                     env['LBZIP2_VERIF_IN_GRANUL'] = '64'
                     env['LBZIP2_VERIF_SCHED'] = '%d:jitter' % rnd.randrange(1, 1 << 30)
+                if kind == 'trailing-many-after-big-block':
+                    env = {'LBZIP2_VERIF_SCHED': '%d:holdblock:%d' % (3 * rnd.randrange(1, 1 << 20), rnd.choice([100, 250]))} if j % 3 else env
+                    env.pop('LBZIP2_VERIF_IN_GRANUL', None)
                 if kind == 'follower':
                     env['LBZIP2_VERIF_SCHED'] = '%d:straggler:40' % rnd.randrange(1, 1 << 30)
                     env['LBZIP2_VERIF_IN_GRANUL'] = str(rnd.choice([1024, 4096]))
